@@ -1,40 +1,32 @@
 """C08 — PROVISIONAL self-contained module: the concurrency half (thread counts, data races, error return) plus the
-implementation-only metamorphic pairs of the first half.  The final c08.py combines `c08_pool` (this machinery) with
-the counter theorems of the C07 work."""
+implementation-only metamorphic pairs of the first half.  The final c08.py combines `c08_pool` (this machinery:
+`gen_pool_cases`, `accepts`, `classify_pool_case`, `pool_race_cases`, `POOL_*` metadata, `pool_check`) with the counter
+theorems of the C07 work: add its Lean module(s) to LEAN_MODULES / REQUIRED_THEOREMS and chain its generator in `gen`."""
+import sys
+
 from driver.props import c08_pool as P
 
 ID = "C08"
 LEVEL_TEXT = P.POOL_LEVEL_TEXT
 LEVEL_NOTE = P.POOL_LEVEL_NOTE
-TECHNIQUE = ("Lean 4 proof over a small-step transition system (all schedules) + decidable lock-set/happens-before "
-             "check over regenerated go/ast facts + race-detector / watchdog runs + metamorphic pairs")
-LEAN_MODULES = P.POOL_LEAN_MODULES
-REQUIRED_THEOREMS = P.POOL_THEOREMS
+TECHNIQUE = P.POOL_TECHNIQUE
+LEAN_MODULES = list(P.POOL_LEAN_MODULES)
+REQUIRED_THEOREMS = list(P.POOL_THEOREMS)
 RULE = P.POOL_RULE
-PARTIAL = P.POOL_PARTIAL
-TRUSTED = P.POOL_TRUSTED
+PARTIAL = list(P.POOL_PARTIAL)
+TRUSTED = list(P.POOL_TRUSTED)
 TIMEOUT = P.TIMEOUT
-FACTS = [("distMatrix", "raceFree"), ("distMatrix", "instanceOfPool")]
+FACTS = list(P.POOL_FACTS)
 
 gen = P.gen_pool_cases
 accepts = P.accepts
 classify = P.classify_pool_case
-
-
-def race_cases(cases, tier):
-    """the thread-count cases are re-run under the race detector (a subset in the quick tier)"""
-    cs = [c for c in cases if c.op == "distcpus"]
-    if tier == "quick":
-        keep = [c for c in cs if c.tag != "distcpus"] + [c for c in cs if c.tag == "distcpus"][:14]
-        # the error path under the race detector too (each hangs for the watchdog's 10 s on the unchanged tree)
-        fails = [c for c in cases if c.op == "distfail" and c.tag != "distfail-never" and c.args[1] != "1"]
-        return keep + fails[:4]
-    return cs + [c for c in cases if c.op == "distfail"]
+race_cases = P.pool_race_cases
 
 
 def check(tier, seed):
-    return P.pool_check(__import__("driver.props.c08", fromlist=["x"]), tier, seed)
+    return P.pool_check(sys.modules[__name__], tier, seed)
 
 
 def replay(path):
-    return P.pool_replay(__import__("driver.props.c08", fromlist=["x"]), path)
+    return P.pool_replay(sys.modules[__name__], path)
